@@ -284,10 +284,13 @@ func (bucket *Bucket) dropCollection(name sgbucket.DataStoreNameImpl) error {
 	bucket.mutex.Lock()
 	defer bucket.mutex.Unlock()
 
-	if c := bucket.collections[name]; c != nil {
-		c.close()
-		delete(bucket.collections, name)
+	// Stop the collection's feeds, whichever handle started them (the feed registry is shared by
+	// all handles; this handle may never have opened the collection itself).
+	for _, feed := range bucket.collectionFeeds[name] {
+		feed.close()
 	}
+	delete(bucket.collectionFeeds, name)
+	delete(bucket.collections, name)
 
 	_, err := bucket._db().Exec(`DELETE FROM collections WHERE scope=? AND name=?`, name.ScopeName(), name.CollectionName())
 	if err != nil {
